@@ -575,8 +575,24 @@ fn strat18(t: Tier) -> BoxedStrategy<Case18> {
         proptest::collection::vec(any::<u16>(), 3),
     )
         .prop_map(|(base, rows, perm, cuts)| Case18 { base, rows, perm, cuts })
-        .prop_flat_map(|c| (Just(c), proptest::collection::vec((any::<u16>(), 0u8..3, any::<u16>()), 0..4)))
-        .prop_map(|(mut c, twins)| {
+        .prop_flat_map(|c| (Just(c), proptest::collection::vec((any::<u16>(), 0u8..3, any::<u16>()), 0..4), proptest::collection::vec((any::<u16>(), 0u8..6, 0u32..1_000_000, any::<u8>(), any::<u16>()), 0..4)))
+        .prop_map(|(mut c, twins, companions)| {
+            // several dividend / withholding rows for one (date, symbol): a companion row copies
+            // date and symbol of an existing dividend or withholding row and carries its own
+            // amount and spelling (sign, $, commas), so totals of 2+ rows per key are the norm
+            for (pick, kind, amount, style, pos) in companions {
+                let divs: Vec<usize> = c.rows.iter().enumerate().filter(|(_, r)| matches!(r.kind, Kind::Dividend(_) | Kind::Nra(_))).map(|(i, _)| i).collect();
+                if divs.is_empty() {
+                    break;
+                }
+                let mut comp = c.rows[divs[(pick as usize * divs.len()) >> 16]].clone();
+                comp.kind = if kind < 4 { Kind::Nra(kind) } else { Kind::Dividend(kind) };
+                comp.amount = amount;
+                comp.style = style;
+                comp.target = 0;
+                let at = (pos as usize * (c.rows.len() + 1)) >> 16;
+                c.rows.insert(at, comp);
+            }
             // Schwab's price-correction pattern: a Sell re-booked on the same date with the same
             // quantity at another price (or an exact duplicate row), inserted at a random position;
             // Cancel Sell rows pick their target among all sells, so they meet these twins
